@@ -40,6 +40,9 @@ func TestC04(t *testing.T) {
 		if o.SkipCopy && b.Conv.Settings.SkipCopy && rapid.IntRange(0, 2).Draw(rt, "pointer-twin") == 0 {
 			b.PointerTwin("Twin")
 		}
+		if !b.Conv.Settings.SkipCopy && rapid.IntRange(0, 3).Draw(rt, "shared-helper-override") == 0 {
+			b.SharedHelperOverride("skipcopy")
+		}
 		b.Conv.Settings.EnumOff = true
 		b.Finish()
 		if k := b.Labels["excluded:F-SKIPCOPY-INTERIOR-PTR"]; k > 0 {
